@@ -139,7 +139,13 @@ func (r *readCommand) read(ctx context.Context, ltx lcontext.LContext,
 		limiter = r.server.tailLimiter
 	}
 
+	// Only give back a limiter slot which was actually acquired (and not the slot of
+	// another read in case this one got cancelled while still waiting for its slot).
+	var acquired bool
 	defer func() {
+		if !acquired {
+			return
+		}
 		select {
 		case <-limiter:
 		default:
@@ -148,12 +154,14 @@ func (r *readCommand) read(ctx context.Context, ltx lcontext.LContext,
 
 	select {
 	case limiter <- struct{}{}:
+		acquired = true
 	case <-ctx.Done():
 		return
 	default:
 		dlog.Server.Info("Server limit hit, queueing file", len(limiter), path)
 		select {
 		case limiter <- struct{}{}:
+			acquired = true
 			dlog.Server.Info("Server limit OK now, processing file", len(limiter), path)
 		case <-ctx.Done():
 			return
